@@ -5,6 +5,7 @@
    fixes/03, 09, 10, 11, 12, 41 applied; constants from Gen/AcmdTables.v. *)
 From DS Require Import Base.Prelude Base.Bits Gen.AcmdTables Model.AcmdFrame.
 From DS Require Import Model.AcmdAxis Proofs.AcmdFrameProofs Proofs.AcmdAxisProofs.
+From DS Require Import Model.AcmdReset Proofs.AcmdResetProofs.
 From Coq Require Import Reals.
 From Flocq Require Import Core IEEE754.BinarySingleNaN.
 
@@ -160,3 +161,91 @@ Example C14_drive_to_stow_without_stow_positions_refuted :
   rx_answer (fst (mode_command cfg_AZ ex_active_az
      ([1; 0; 1; 0; 9; 0; 0; 0; 52; 0] ++ le_enc 8 4619567317775286272 ++ le_enc 8 4636666922610458624))) = 9.
 Proof. vm_compute. reflexivity. Qed.
+
+(* ---- mode command 15, `_reset`: the status flags (Model/AcmdReset.v) ---- *)
+
+(* An accepted reset (mode 15 on an axis that is inactive or deactivating) clears exactly the
+   bits of the error word listed in [reset_clears] (generated from the source of `_reset` and of
+   the flag setters) -- which are all the named error flags -- and changes nothing else of the
+   modelled state: the general status flags, the warning word, the other bits of the error
+   word, the auxiliary fields, motion / brakes / stow pins / offset and the parameter-command
+   fields are as before; the received fields echo (counter, 15, 9), the executed fields become
+   (counter, 15, 1), the thread ends normally. *)
+Theorem C14_reset_effect : forall cfg x cmd,
+  length cmd = 26%nat -> mc_mode cmd = reset_mode ->
+  zmem (axis_state (mo (xa_ax x))) [0; 1] = true ->
+  let r := xmode_command cfg x cmd in
+  let x' := fst r in
+  (forall k, 0 <= k ->
+     Z.testbit (xa_err x') k = Z.testbit (xa_err x) k && negb (zmem k reset_clears)) /\
+  (forall k, zmem k error_flags = true -> 0 <= k -> Z.testbit (xa_err x') k = false) /\
+  xa_gen x' = xa_gen x /\ xa_warn x' = xa_warn x /\ xa_aux x' = xa_aux x /\
+  mo (xa_ax x') = mo (xa_ax x) /\ par_kept (xa_ax x) (xa_ax x') /\
+  rx_counter (xa_ax x') = mc_counter cmd /\ rx_mode (xa_ax x') = reset_mode /\
+  rx_answer (xa_ax x') = 9 /\
+  ex_counter (xa_ax x') = mc_counter cmd /\ ex_mode (xa_ax x') = reset_mode /\
+  ex_answer (xa_ax x') = reset_answer /\ snd r = TDone.
+Proof. exact reset_effect. Qed.
+Print Assumptions C14_reset_effect.
+
+(* the list `_reset` clears is the set of named flags of the error word, no more, no less *)
+Theorem C14_reset_clears_the_error_flags : forall k,
+  zmem k reset_clears = true <-> zmem k error_flags = true.
+Proof. exact (fun k => conj (reset_clears_only_named k) (reset_clears_all_named k)). Qed.
+Print Assumptions C14_reset_clears_the_error_flags.
+
+(* A reset that is not permitted (axis state other than 0 / 1; mode 15 has no parameter check,
+   so "refused" is answer 4) changes none of the flags, nor motion, nor the executed / parameter
+   fields: only the received fields record (counter, 15, 4). *)
+Theorem C14_reset_refused_unchanged : forall cfg x cmd,
+  length cmd = 26%nat -> mc_mode cmd = reset_mode ->
+  zmem (axis_state (mo (xa_ax x))) [0; 1] = false ->
+  let r := xmode_command cfg x cmd in
+  let x' := fst r in
+  flags_kept x x' /\ mo (xa_ax x') = mo (xa_ax x) /\
+  ex_kept (xa_ax x) (xa_ax x') /\ par_kept (xa_ax x) (xa_ax x') /\
+  rx_counter (xa_ax x') = mc_counter cmd /\ rx_mode (xa_ax x') = reset_mode /\
+  rx_answer (xa_ax x') = 4 /\ snd r = TDone.
+Proof. exact reset_refused_unchanged. Qed.
+Print Assumptions C14_reset_refused_unchanged.
+
+(* `_reset` runs exactly for mode 15 on an axis in state 0 / 1, and no command that does not run
+   it (any bytes, any mode, any state; every parameter command) touches the status flags *)
+Theorem C14_reset_runs_iff : forall cfg ax cmd, length cmd = 26%nat ->
+  (reset_runs cfg ax cmd = true <->
+   mc_mode cmd = reset_mode /\ zmem (axis_state (mo ax)) [0; 1] = true).
+Proof. exact reset_runs_iff. Qed.
+Print Assumptions C14_reset_runs_iff.
+
+Theorem C14_flags_only_by_reset : forall cfg x cmd,
+  (reset_runs cfg (xa_ax x) cmd = false -> flags_kept x (fst (xmode_command cfg x cmd))) /\
+  flags_kept x (fst (xparameter_command x cmd)).
+Proof. exact (fun cfg x cmd => conj (flags_only_by_reset cfg x cmd) (parameter_command_keeps_flags x cmd)). Qed.
+Print Assumptions C14_flags_only_by_reset.
+
+(* the extended step restricted to the fields of Model/AcmdAxis.v is that file's step *)
+Theorem C14_reset_model_conservative : forall cfg x cmd,
+  xa_ax (fst (xmode_command cfg x cmd)) = fst (mode_command cfg (xa_ax x) cmd) /\
+  snd (xmode_command cfg x cmd) = snd (mode_command cfg (xa_ax x) cmd).
+Proof. exact xmode_command_axis. Qed.
+Print Assumptions C14_reset_model_conservative.
+
+(* non-vacuity: the fresh azimuth (state 0) with every bit of the error word, the warning word
+   and the general flags set; reset with counter 9 clears the 27 named bits and leaves the five
+   unused ones (5, 10, 20, 21, 28 = 0x10300420); on the activated azimuth it is refused *)
+Definition ex_reset_cmd : list Z := [1; 0; 1; 0; 9; 0; 0; 0; 15; 0] ++ le_enc 8 0 ++ le_enc 8 0.
+Definition ex_flagged (ax : axis) : xaxis := mkXa ax 63 4294967295 4294967295 [1; 2; 3].
+
+Example C14_ex_reset :
+  let x' := fst (xmode_command cfg_AZ (ex_flagged (axis_init cfg_AZ)) ex_reset_cmd) in
+  xa_err x' = 271582240 /\ xa_warn x' = 4294967295 /\ xa_gen x' = 63 /\
+  ex_counter (xa_ax x') = 9 /\ ex_mode (xa_ax x') = 15 /\ ex_answer (xa_ax x') = 1 /\
+  reset_runs cfg_AZ (axis_init cfg_AZ) ex_reset_cmd = true /\
+  zmem (axis_state (mo (axis_init cfg_AZ))) [0; 1] = true.
+Proof. vm_compute. repeat split; reflexivity. Qed.
+
+Example C14_ex_reset_refused :
+  let x' := fst (xmode_command cfg_AZ (ex_flagged ex_active_az) ex_reset_cmd) in
+  xa_err x' = 4294967295 /\ rx_answer (xa_ax x') = 4 /\ ex_mode (xa_ax x') = 2 /\
+  zmem (axis_state (mo ex_active_az)) [0; 1] = false.
+Proof. vm_compute. repeat split; reflexivity. Qed.
